@@ -29,6 +29,16 @@ func (ch *Chooser) Choose(n int) int {
 	return v
 }
 
+// Abandon marks the execution as not carried out (the harness can no longer run executions reliably):
+// the prefix counts as consumed and no alternative is scheduled below it.
+func (ch *Chooser) Abandon() {
+	ch.trace = append([]int(nil), ch.prefix...)
+	ch.widths = make([]int, len(ch.prefix))
+	for i := range ch.widths {
+		ch.widths[i] = 1
+	}
+}
+
 // Trace returns the choice vector of the current execution so far.
 func (ch *Chooser) Trace() []int { return append([]int(nil), ch.trace...) }
 
